@@ -194,6 +194,29 @@ def check_structure(acc, domk, si, seed, tier):
             L2 = float(e2._lipschitz(ms2))
             if not abs(L2 - L) <= 1e-8 * max(1.0, L):
                 fails.append(('spelling-lipschitz', 'spelling %s/%s gives smoothness constant %.10g vs %.10g' % (qk, pf, L2, L)))
+    # the same projection measured several times with same-shaped but different queries (identity, weighted identity, prefix sums)
+    dup = [c for c in set(struct) if list(struct).count(c) >= 2]
+    if dup or len(struct) == 1:
+        st2 = tuple([struct[0]] * 3)
+        pk = M.Problem(attrs, sizes, st2, 0, 'pos', seed, kinds=['dense', 'scaled', 'prefix'], sigmas=[1.0, 1.0, 1.0])
+        e3, ms3 = setup(attrs, sizes, pk.fresh_measurements(), T, 'L2')
+        cl3 = list(e3.model.cliques)
+        n3 = sum(e3.model.domain.size(c) for c in cl3)
+        mu3 = e3.model.belief_propagation(e3.model.potentials)
+        x3 = flat(mu3, cl3)
+        _, g3 = e3._marginal_loss(unflat(x3, mu3, cl3))
+        g3 = flat(g3, cl3)
+        H3 = np.zeros((n3, n3))
+        for i in range(n3):
+            e_ = np.zeros(n3)
+            e_[i] = 1.0
+            _, gp = e3._marginal_loss(unflat(x3 + e_, mu3, cl3))
+            H3[:, i] = flat(gp, cl3) - g3
+        lam3 = float(np.linalg.eigvalsh((H3 + H3.T) / 2).max())
+        L3 = float(e3._lipschitz(ms3))
+        acc.evals += 1
+        if not lam3 <= L3 * (1 + 1e-9) + 1e-12:
+            fails.append(('lipschitz', 'three same-shaped queries (identity, weighted identity, prefix) on %r: _lipschitz returned %.8g, largest Hessian eigenvalue %.8g' % (struct[0], L3, lam3)))
     # history: the same engine object sets up a second measurement list (same projections, same shapes, different
     # queries); the bound must be the one of the list it is asked about (no state carried over between calls)
     if len(struct) >= 1:
